@@ -168,6 +168,20 @@ def _val(d, name, k=0):
 
 
 # ---------------------------------------------------------------------------
+def _size_minus(e, var):
+  """c for `var - c` / `var` / `var + (-c)`, else None"""
+  if dotted(e) == var:
+    return 0
+  if isinstance(e, ast.BinOp) and dotted(e.left) == var:
+    c = const_value(e.right, None)
+    if isinstance(c, (int, float)) and not isinstance(c, bool):
+      if isinstance(e.op, ast.Sub):
+        return c
+      if isinstance(e.op, ast.Add):
+        return -c
+  return None
+
+
 def _clip(prog, fn):
   d = _defs(fn)
   probs = _bad(_val(d, 'upper_bounds'), 'tensor form upper bounds',
@@ -189,8 +203,15 @@ def _clip(prog, fn):
              s.targets[0].value) == 'dim_upper_bounds']
   if not dub:
     raise _Unrecognised('dim_upper_bounds')
-  p2 = _bad(_arg(dub[0].value, 0, 'value'), 'list form upper bound',
-            'dim_size - 1.0', 'dim_size - 1')
+  ub = _arg(dub[0].value, 0, 'value')
+  off = _size_minus(ub, 'dim_size')
+  if off is not None and off != 1:
+    # recognised, and wrong: the last vertex of a dimension is size - 1
+    p2 = ['list form upper bound is dim_size - %g, expected dim_size - 1: '
+          'inputs between size - 1 and that bound get weights that no longer '
+          'sum to 1' % off]
+  else:
+    p2 = _bad(ub, 'list form upper bound', 'dim_size - 1.0', 'dim_size - 1')
   p2 += _bad(dub[0].targets[0].slice, 'list form bound key', 'dim_size')
   lb = d.get('dim_lower_bound')
   if not lb or _ext(prog, fn, lb[0].value) != 'tf.zeros':
